@@ -185,6 +185,8 @@ def expected_convertSkeleton : List (String × String) :=
    ("convert", "1 case reflect.String"),
    ("convert", "2 return String(val.String())"),
    ("convert", "1 case reflect.Interface"),
+   ("convert", "2 if val.IsNil()"),          -- fix 318a99d: a nil non-empty interface is Nil
+   ("convert", "3 return Nil{}"),
    ("convert", "2 if val.Type().NumMethod() == 0"),
    ("convert", "3 return convert(val.Interface())"),
    ("convert", "2 if !val.IsNil()"),
